@@ -238,15 +238,29 @@ CO_ERR CODictObjInit(CO_DICT *cod, CO_NODE *node)
     CO_ERR    result = CO_ERR_NONE;
     CO_ERR    err;
     CO_OBJ   *obj;
+    CO_OBJ   *store;
 
     ASSERT_PTR_ERR(cod,  -1);
     ASSERT_PTR_ERR(node, -1);
 
-    obj = cod->Root;
-    while (obj->Key != 0) {
-        err = COObjInit(obj, node);
+    /* the stored parameters are loaded first: the object entries
+     * below 1010h (e.g. 1005h) start their services with these values
+     */
+    store = CODictFind(cod, CO_DEV(0x1010, 0));
+    if (store != NULL) {
+        err = COObjInit(store, node);
         if (err != CO_ERR_NONE) {
             result = err;
+        }
+    }
+
+    obj = cod->Root;
+    while (obj->Key != 0) {
+        if (obj != store) {
+            err = COObjInit(obj, node);
+            if (err != CO_ERR_NONE) {
+                result = err;
+            }
         }
         obj++;
     }
